@@ -41,31 +41,33 @@ def expected : String → List Flag
   | "MinGenSet" => [.badWeightType, .constraintNotListOfLists]
   | _ => []
 
+/-- the graph classes and abstract bases whose constructors the model classes call -/
+def supportClasses : List String :=
+  ["AbstractSourceSinkGraph", "stDAG", "stDiGraph", "NodeExpandedDiGraph", "AbstractPathModelDAG", "AbstractWalkModelDiGraph"]
+
+/-- what the supporting constructors themselves are to reject (their docstrings' "Raises" sections): a
+guard deleted from a base class is noticed even where a subclass happens to duplicate it -/
+def supportExpected : String → List Flag
+  | "AbstractSourceSinkGraph" => [.nonStringNode, .unknownStart, .unknownEnd]
+  | "stDAG" => [.nonStringNode, .cyclicForDag, .unknownStart, .unknownEnd]
+  | "stDiGraph" => [.nonStringNode, .noSourceOrSink, .unknownStart, .unknownEnd]
+  | "NodeExpandedDiGraph" => [.nonStringNode, .emptyGraph, .unknownStart, .unknownEnd]
+  | "AbstractPathModelDAG" => [.emptyGraph] ++ constraints ++ [.coverageLengthOutOfRange]
+  | "AbstractWalkModelDiGraph" => [.emptyGraph] ++ constraints ++ kFlags
+  | _ => []
+
 /-- violations a class is expected to reject but has **no guard** for — each entry mirrors a finding of
-`known_findings.json` (repairing one in /repo leaves a stale, harmless entry here) -/
+`known_findings.json`. Kept minimal: an entry that no longer applies would let the defect come back
+unnoticed by `expected_guarded`, so repaired entries are removed (k checks: /repo e001a45). -/
 def knownMissing : List (String × Flag) :=
-  [ -- DAG error / cover models have no `k > 0` check           [C19-k-nonpositive-dag-models]
-    ("kLeastAbsErrors", .kNonPositive), ("kMinPathError", .kNonPositive), ("kPathCover", .kNonPositive),
-    -- only kFlowDecomp checks that k is an int                 [C19-k-not-int]
-    ("kLeastAbsErrors", .kNotInt), ("kMinPathError", .kNotInt), ("kPathCover", .kNotInt),
-    ("kFlowDecompCycles", .kNotInt), ("kLeastAbsErrorsCycles", .kNotInt), ("kMinPathErrorCycles", .kNotInt),
-    ("kPathCoverCycles", .kNotInt),
-    -- cyclic flow decomposition never checks conservation      [C19-cycles-nonconserving-unsolved]
+  [ -- cyclic flow decomposition never checks conservation      [C19-cycles-nonconserving-unsolved]
     ("kFlowDecompCycles", .nonConservingFlow), ("MinFlowDecompCycles", .nonConservingFlow) ]
 
-/-- violations whose guard exists but is reached **too late** on some inputs: an earlier statement of
-the constructor already fails with another exception — each entry mirrors a finding of
-`known_findings.json` -/
-def knownPreempted : List (String × Flag) :=
-  [ -- the greedy pre-solve of kFlowDecomp indexes the graph with the constraint edges before
-    -- `_check_valid_subpath_constraints` runs (KeyError / TypeError)   [C19-constraints-used-before-validation]
-    ("kFlowDecomp", .constraintEdgeAbsent), ("MinFlowDecomp", .constraintEdgeAbsent),
-    ("kFlowDecomp", .constraintNotTuples), ("MinFlowDecomp", .constraintNotTuples),
-    -- `trusted_edges_for_safety.update(constraint)` hashes the constraint's elements before validation
-    ("kLeastAbsErrors", .constraintNotTuples), ("kLeastAbsErrorsCycles", .constraintNotTuples),
-    ("kMinPathErrorCycles", .constraintNotTuples),
-    -- `k <= 0 or not isinstance(k, int)`: the comparison fails for a `str` before the type test  [C19-k-not-int]
-    ("kFlowDecomp", .kNotInt) ]
+/-- violations whose guard exists but is reached **too late** on some inputs (an earlier statement of
+the constructor already fails with another exception). Empty on the current tree: constraints are
+validated before their first use (/repo d47f5dc) and `isinstance(k, int)` is tested before `k <= 0`
+(/repo e001a45). -/
+def knownPreempted : List (String × Flag) := []
 
 def Flag.name : Flag → String
   | .nonStringNode => "nonStringNode" | .cyclicForDag => "cyclicForDag" | .noSourceOrSink => "noSourceOrSink"
